@@ -1,1 +1,73 @@
-// harness bodies for h2 src/frame/settings.rs (compiled in-crate as `verif_h`, feature "verif")
+// harness bodies for h2 src/frame/settings.rs
+use super::*;
+use crate::frame::head::verif_h::ref_parse_head;
+
+/// reference validity of one (id, value) setting, RFC 9113 §6.5.2 + RFC 8441
+fn ref_setting_ok(id: u16, v: u32) -> bool {
+    match id {
+        2 | 8 => v <= 1,
+        4 => v <= 0x7fff_ffff,
+        5 => v >= 16_384 && v <= 16_777_215,
+        _ => true,
+    }
+}
+
+/// C09.frame[settings] + C12.rt[settings]: two arbitrary settings entries (12
+/// bytes), arbitrary flags/id/length <= 13.
+pub fn c12_rt_settings() {
+    let flags: u8 = kani::any();
+    let sid: u32 = kani::any();
+    kani::assume(sid <= 0x7fff_ffff);
+    let bytes: [u8; 13] = kani::any();
+    let n: usize = kani::any();
+    kani::assume(n <= 13);
+    let head = Head::new(Kind::Settings, flags, StreamId::from(sid));
+    let r = Settings::load(head, &bytes[..n]);
+    let ack = flags & 1 == 1;
+    let id0 = u16::from_be_bytes([bytes[0], bytes[1]]);
+    let v0 = u32::from_be_bytes([bytes[2], bytes[3], bytes[4], bytes[5]]);
+    let id1 = u16::from_be_bytes([bytes[6], bytes[7]]);
+    let v1 = u32::from_be_bytes([bytes[8], bytes[9], bytes[10], bytes[11]]);
+    let entries = n / 6;
+    let valid = sid == 0
+        && if ack { n == 0 } else {
+            n % 6 == 0 && (entries < 1 || ref_setting_ok(id0, v0)) && (entries < 2 || ref_setting_ok(id1, v1))
+        };
+    match &r {
+        Ok(s) => {
+            assert!(valid, "invalid SETTINGS accepted");
+            assert!(s.is_ack() == ack);
+            // last occurrence wins (RFC 9113 §6.5.3: processed in order)
+            if !ack {
+                let want = |id: u16| -> Option<u32> {
+                    if entries >= 2 && id1 == id { Some(v1) } else if entries >= 1 && id0 == id { Some(v0) } else { None }
+                };
+                assert!(s.header_table_size() == want(1), "HEADER_TABLE_SIZE");
+                assert!(s.is_push_enabled() == want(2).map(|v| v != 0), "ENABLE_PUSH");
+                assert!(s.max_concurrent_streams() == want(3), "MAX_CONCURRENT_STREAMS");
+                assert!(s.initial_window_size() == want(4), "INITIAL_WINDOW_SIZE");
+                assert!(s.max_frame_size() == want(5), "MAX_FRAME_SIZE");
+                assert!(s.max_header_list_size() == want(6), "MAX_HEADER_LIST_SIZE");
+                assert!(s.is_extended_connect_protocol_enabled() == want(8).map(|v| v != 0), "ENABLE_CONNECT_PROTOCOL");
+            }
+            // serialise and parse back
+            let mut dst = BytesMut::with_capacity(64);
+            s.encode(&mut dst);
+            let mut hb = [0u8; 9];
+            hb.copy_from_slice(&dst[..9]);
+            let (l, t, f, rbit, sid2) = ref_parse_head(&hb);
+            assert!(t == 4 && sid2 == 0 && !rbit, "SETTINGS head on the wire");
+            assert!(f == if ack { 1 } else { 0 });
+            assert!(l as usize == dst.len() - 9, "SETTINGS length field");
+            assert!(l % 6 == 0 && l <= 12);
+            let s2 = Settings::load(Head::parse(&dst[..9]), &dst[9..]).unwrap();
+            assert!(s2 == *s, "SETTINGS round trip");
+            std::mem::forget(dst);
+        }
+        Err(_) => assert!(!valid, "legal SETTINGS rejected"),
+    }
+    kani::cover!(r.is_ok() && !ack && entries == 2 && id0 == id1, "ok_duplicate_id");
+    kani::cover!(r.is_ok() && !ack && entries == 2 && id0 > 8, "ok_unknown_id");
+    kani::cover!(r.is_err() && sid == 0 && !ack && n == 12, "bad_value");
+    kani::cover!(true, "end");
+}
